@@ -143,7 +143,34 @@ def _gen_dag(rng):
     return c, [rng.choice([0, 1, 2, 3, 4, -1])]
 
 
+HUGE = [2 ** 53 + 1, 2 ** 53 + 3, 2 ** 60 + 1, 10 ** 17 + 1, 3 ** 35]
+
+
+def _gen_huge(rng):
+    """Bipartite constructions are stored lazily: a right side far beyond
+    2**53 is within reach, and sizes are exact integers there too."""
+    c = rng.choice(["complete", "empty", "shift", "glrd", "glrm"])
+    L, R = rng.randint(1, 3), rng.choice(HUGE)
+    if c == "shift":
+        args = [L, R] + rng.sample([0, 1, 2, R - 1, R - 2, R // 2],
+                                   rng.randint(0, 3))
+    elif c == "glrd":
+        args = [L, R, rng.randint(0, 3)]
+    elif c == "glrm":
+        args = [L, R, rng.randint(0, 5)]
+    else:
+        args = [L, R]
+    strategy, budget = adversary_from(rng, p_none=0.6)
+    return {"type": "bipartite", "construction": c,
+            "args": [str(a) for a in args], "mods": [], "save": None,
+            "cli": False, "save_pos": None, "huge": True,
+            "prng": {"seed": rng.randrange(2 ** 32), "strategy": strategy,
+                     "budget": budget}}
+
+
 def generate(rng, config):
+    if config == "lib" and rng.random() < 0.03:
+        return _gen_huge(rng)
     gtype = rng.choice(["simple", "simple", "bipartite", "bipartite", "dag"])
     if gtype == "simple":
         c, args = _gen_simple(rng)
@@ -185,8 +212,19 @@ def generate(rng, config):
         f = rng.choice(fmts[:2] * 3 + fmts[2:])
         save = ["g." + f] if rng.random() < 0.5 else [f, "g.out"]
     strategy, budget = adversary_from(rng, p_none=0.45)
+    resave = None
+    if save and config != "cli" and rng.random() < 0.5:
+        # the saved file is the input of a later command, which modifies
+        # the graph and saves it again; a third command reads that file
+        fmts = {"simple": ["kthlist", "dimacs", "gml", "dot"],
+                "bipartite": ["kthlist", "matrix", "gml", "dot"],
+                "dag": ["kthlist", "dimacs", "gml", "dot"]}[gtype]
+        resave = {"add": rng.choice([None, 0, 1, 2]) if gtype != "dag"
+                  else None,
+                  "fmt": rng.choice(fmts[:2] * 3 + fmts[2:]),
+                  "explicit": rng.random() < 0.5}
     return {"type": gtype, "construction": c, "args": args, "mods": mods,
-            "save": save, "cli": config == "cli",
+            "save": save, "cli": config == "cli", "resave": resave,
             "save_pos": rng.randint(0, len(mods)) if save else None,
             "prng": {"seed": rng.randrange(2 ** 32), "strategy": strategy,
                      "budget": budget}}
@@ -556,9 +594,75 @@ def _build(case, toks):
     return r, sim
 
 
+def _exec_huge(case, ctx):
+    spec = _spec(case)
+    res, sim = _build(case, spec)
+    c = case["construction"]
+    a = [int(x) for x in case["args"]]
+    L, R = a[0], a[1]
+    ctx.log("huge", spec, res[0], sim.draws)
+    ctx.shape = ("huge", tuple(spec), case["prng"])
+    ctx.nontrivial = True
+    ctx.fault("size_beyond_2^53")
+    where = "type=bipartite spec=%r prng=%r" % (" ".join(spec), case["prng"])
+
+    def bad(clause, detail):
+        raise Violation("C15/%s/%s" % (c, clause), "%s\n%s" % (where, detail))
+
+    if res[0] == "exc":
+        if isinstance(res[1], ValueError):
+            bad("valid-request-refused", repr(res[1]))
+        raise Violation("C15/%s/internal-failure/%s" %
+                        (c, exc_signature(res[1], REPO)),
+                        "%s\n%r" % (where, res[1]))
+    G = res[1]
+    if (G.left_order(), G.right_order()) != (L, R) or \
+            G.number_of_vertices() != L + R:
+        bad("wrong-sides", "sides (%d,%d), asked (%d,%d)" %
+            (G.left_order(), G.right_order(), L, R))
+    nb = {}
+    for u in range(1, L + 1):
+        rn = G.right_neighbors(u)
+        if c == "complete":
+            if len(rn) != R or rn[0] != 1 or rn[-1] != R:
+                bad("complete-bipartite", "right_neighbors(%d) has %d "
+                    "elements" % (u, len(rn)))
+            continue
+        nb[u] = list(rn)
+        if nb[u] != sorted(set(nb[u])) or any(not 1 <= v <= R
+                                              for v in nb[u]):
+            bad("neighbours-out-of-range", "right_neighbors(%d)=%r" %
+                (u, nb[u]))
+    if c == "complete":
+        if G.number_of_edges() != L * R or not G.has_edge(L, R):
+            bad("complete-bipartite", "%d edges" % G.number_of_edges())
+    elif c == "empty":
+        if G.number_of_edges() != 0 or any(nb.values()):
+            bad("empty-has-edges", "%d edges" % G.number_of_edges())
+    elif c == "shift":
+        pat = a[2:]
+        for u in range(1, L + 1):
+            want = sorted(set(1 + (u - 1 + o) % R for o in pat))
+            if nb[u] != want:
+                bad("shift-edges", "right_neighbors(%d)=%r, expected %r" %
+                    (u, nb[u], want))
+    elif c == "glrd":
+        if any(len(nb[u]) != a[2] for u in nb):
+            bad("glrd-not-left-regular", "left degrees %r, asked %d" %
+                ([len(nb[u]) for u in sorted(nb)], a[2]))
+    elif c == "glrm":
+        if G.number_of_edges() != a[2] or \
+                sum(len(x) for x in nb.values()) != a[2]:
+            bad("glrm-edge-count", "%d edges, asked %d" %
+                (G.number_of_edges(), a[2]))
+    ctx.probe("lazy construction with a side beyond 2^53")
+
+
 def execute(case, ctx):
     if case.get("cli"):
         return _exec_cli(case, ctx)
+    if case.get("huge"):
+        return _exec_huge(case, ctx)
     gtype = case["type"]
     fs = SimFS(on_fire=ctx.fault)
     full = _spec(case)
@@ -760,6 +864,65 @@ def execute(case, ctx):
         if ref != want:
             bad("save-differs", "saved %r, returned %r" % (ref, want))
         ctx.probe("save:%s" % fmt)
+        if case.get("resave"):
+            _resave(case, ctx, fs, fname, fmt, want, bad, internal)
+
+
+def _state(G, gtype):
+    if gtype == "bipartite":
+        return (G.left_order(), G.right_order(), sorted(_edges(G)))
+    return (G.number_of_vertices(), sorted(_edges(G)))
+
+
+def _resave(case, ctx, fs, fname, fmt, want, bad, internal):
+    """History of three commands sharing the simulated disk: the file saved
+    by the first is read by the second ('<file> [addedges k] save <file2>'),
+    whose saved file is read by the third."""
+    gtype = case["type"]
+    rs = case["resave"]
+    src = [fname] if fname.endswith("." + fmt) else [fmt, fname]
+    spec = list(src)
+    E0 = set(want[-1])
+    k = rs["add"]
+    if k is not None:
+        if gtype == "simple":
+            room = want[0] * (want[0] - 1) // 2 - len(E0)
+        else:
+            room = want[0] * want[1] - len(E0)
+        if k > room:
+            k = None
+    if k is not None:
+        spec += ["addedges", str(k)]
+    out2 = "h." + rs["fmt"] if not rs["explicit"] else "h.out"
+    spec += ["save"] + ([rs["fmt"], out2] if rs["explicit"] else [out2])
+    ctx.fault("saved_file_is_input_of_next_command")
+    with open_router(fs):
+        r2, _ = _build(case, spec)
+    if r2[0] == "exc":
+        if isinstance(r2[1], ValueError):
+            bad("saved-file-refused-as-input", "%r: %r" % (spec, r2[1]))
+        internal(r2[1], "resave")
+    G2 = r2[1]
+    st2 = _state(G2, gtype)
+    if st2[:-1] != want[:-1] or not E0 <= set(st2[-1]) or \
+            len(st2[-1]) != len(E0) + (k or 0):
+        bad("saved-file-misread", "%r gives %r, the saved graph was %r" %
+            (spec, st2, want))
+    data2 = fs.data(out2)
+    if data2 is None:
+        bad("save-missing", "no file %r was written by %r" % (out2, spec))
+    spec3 = [out2] if not rs["explicit"] else [rs["fmt"], out2]
+    with open_router(fs):
+        r3, _ = _build(case, spec3)
+    if r3[0] == "exc":
+        if isinstance(r3[1], ValueError):
+            bad("save-unreadable", "%r written by %r is refused: %r\n%r" %
+                (out2, spec, r3[1], data2[:300]))
+        internal(r3[1], "resave")
+    if _state(r3[1], gtype) != st2:
+        bad("save-differs", "%r saved %r, reading it gives %r" %
+            (spec, st2, _state(r3[1], gtype)))
+    ctx.probe("saved file modified and saved again")
 
 
 def _read_saved(data, fmt, gtype):
